@@ -68,4 +68,34 @@ theorem isForest_graphOf {f : SF} (hn : f.idxs.Nodup) (h0 : 0 ∉ f.idxs) : IsFo
 
 theorem graphOf_nil : graphOf .nil = gInit := rfl
 
+/-! ### renaming the graph indices of a structural forest -/
+
+/-- the same forest with every graph index renamed -/
+def mapIdx (ρ : Nat → Nat) (f : SF) : SF := f.mapRecs fun n => { n with idx := ρ n.idx }
+
+@[simp] theorem mapIdx_nil (ρ : Nat → Nat) : mapIdx ρ .nil = .nil := rfl
+@[simp] theorem mapIdx_cons (ρ : Nat → Nat) (n : NodeRec) (k s : SF) :
+    mapIdx ρ (.cons n k s) = .cons { n with idx := ρ n.idx } (mapIdx ρ k) (mapIdx ρ s) := rfl
+
+theorem idxs_mapIdx (ρ : Nat → Nat) : ∀ f : SF, (mapIdx ρ f).idxs = f.idxs.map ρ
+  | .nil => rfl
+  | .cons n k s => by simp [idxs_mapIdx ρ k, idxs_mapIdx ρ s]
+
+theorem edgesOf_mapIdx (ρ : Nat → Nat) : ∀ (f : SF) (par : Nat),
+    Store.edgesOf (ρ par) (mapIdx ρ f) = (Store.edgesOf par f).map fun e => (ρ e.1, ρ e.2)
+  | .nil, _ => rfl
+  | .cons n k s, par => by simp [edgesOf_mapIdx ρ k, edgesOf_mapIdx ρ s]
+
+theorem mapIdx_append (ρ : Nat → Nat) : ∀ f g : SF, mapIdx ρ (f.append g) = (mapIdx ρ f).append (mapIdx ρ g)
+  | .nil, _ => rfl
+  | .cons n k s, g => by simp [SF.append, mapIdx_append ρ s g]
+
+theorem edgesOf_append (par : Nat) : ∀ f g : SF,
+    Store.edgesOf par (f.append g) = Store.edgesOf par f ++ Store.edgesOf par g
+  | .nil, _ => rfl
+  | .cons n k s, g => by simp [SF.append, edgesOf_append par s g]
+
+theorem idxs_append (f g : SF) : (f.append g).idxs = f.idxs ++ g.idxs := by
+  simp [SF.idxs, SF.recs_append]
+
 end PhyModel.Graph
